@@ -48,7 +48,26 @@ def run(rep, tier, seed):
                 rules[k] = gen_rule(rnd, pd, nr['id'], kinds=KINDS, direction=rnd.choice([DI.BIDIRECTIONAL, d]))
         nrs = [n_rule(r) for r in rules]
         cm = ContextManager(Context(id='c', description='', interface_id='i', parser_id=stack, ruleset=rules))
-        for strat in (MatchStrategy.FIRST, MatchStrategy.BEST):
+        passes = [(MatchStrategy.FIRST, None), (MatchStrategy.BEST, None)]
+        if i % 3 == 0:
+            # the context is re-provisioned while the manager lives: a new rule the strategies prefer is put first,
+            # or an existing rule is replaced by a new version under the same id; round trips go on through the SAME manager
+            passes += [(MatchStrategy.FIRST, 'edit'), (MatchStrategy.BEST, None)]
+        for strat, edit in passes:
+            if edit:
+                used = [bits_of(x.id) for x in rules]
+                if rnd.random() < 0.5:
+                    for _ in range(30):
+                        cand = randbits(rnd, rnd.randint(2, 12))
+                        if all(not cand.startswith(u) and not u.startswith(cand) for u in used):
+                            rules.insert(0, gen_rule(rnd, pd, cand, kinds=('ns', 'map', 'lsb'), direction=rnd.choice([DI.BIDIRECTIONAL, d])))
+                            break
+                else:
+                    k = rnd.randrange(len(rules))
+                    if rules[k].field_descriptors:
+                        rules[k] = gen_rule(rnd, pd, used[k], kinds=KINDS, direction=rnd.choice([DI.BIDIRECTIONAL, d]))
+                nrs = [n_rule(r) for r in rules]
+                rep.hist['manager:re-provisioned'] = rep.hist.get('manager:re-provisioned', 0) + 1
             out = obs_bits(with_timeout(lambda: cm.compress(Buffer(pkt, len(pkt) * 8), direction=d, match_strategy=strat)))
             line = ' '.join(['S', 'cmcompressp', stack, tb(orig), DIRC[d], 'F' if strat == MatchStrategy.FIRST else 'B'] + rules_tokens(nrs))
             b.add('manager-compress:%s:%s' % (stack, strat.value), line, out, parse_model_bits, None,
